@@ -8,7 +8,7 @@ import hwfamily
 from common import seed
 from checks._exec import run_exec, sample
 
-CLAUSES = ("Err:", "OutputCorrect", "OutputRestored")
+CLAUSES = ("Err:", "OutputCorrect", "OutputRestored", "ShapeCovers")
 
 
 def hw_specs(tier, rng, n=None):
